@@ -151,6 +151,21 @@ def thorough_configs():
     return c
 
 
+def scalar_configs(tier):
+    """every subset of the scalar feature macros (the arms of Scalar*.hpp), plus two vector configurations"""
+    import itertools
+    feats = ['X86', 'POPCNT', 'LZCNT', 'BMI', 'BMI2']
+    out = []
+    for r in range(len(feats) + 1):
+        for comb in itertools.combinations(feats, r):
+            if tier != 'thorough' and len(comb) not in (0, 1, len(feats)) and comb not in (('POPCNT', 'LZCNT'), ('LZCNT', 'BMI2'), ('X86', 'BMI')):
+                continue
+            out.append(Config('s-' + ('-'.join(c.lower() for c in comb) or 'none'), list(comb)))
+    out.append(Config('s-sse42', ['SSE4_2']))
+    out.append(Config('s-avx512full-clang20', AVX512_FULL, cxx='clang++', std='c++20', opt='-O2'))
+    return out
+
+
 def configs_for(tier):
     return thorough_configs() if tier == 'thorough' else quick_configs()
 
